@@ -73,7 +73,7 @@ def written(ctx, game, obj):
                     offset_ms=d["offset_ms"], extra=dict(sample_start=d["header"].get("#SAMPLESTART"), sample_length=d["header"].get("#SAMPLELENGTH")), ill=ch["ill_formed"],
                     stops=[tuple(ctx.num(x) for x in s.strip().split("=")) for s in d["stops"]])
     if game == "bms":
-        d = ref_bms.parse(ctx, obj.write().split(b"\r\n"), c04.layout("BME"))
+        d = ref_bms.parse(ctx, obj.write().split(b"\r\n"), c04.ref_layout("BME"))
         fil = [(F(0), d["bpm0"])]
         for p, v in d["tempo"]:
             if p == fil[-1][0]:
